@@ -1,5 +1,5 @@
 (* C11 — executable model of the molar / mass / volumetric views of thermosteam streams.
-   Source modelled (/repo HEAD with the pending repairs C11_1..C11_5 applied, see props/C11.py):
+   Source modelled (/repo HEAD, which contains the repairs C11_1, C11_3, C11_4, C11_5):
      indexer.py        by_mass, by_volume (both classes), _data_cache, reset_chemicals (both classes),
                        ChemicalIndexer.copy_like / to_material_indexer, MaterialIndexer.copy_like /
                        _expand_phases / to_material_indexer / to_chemical_indexer
@@ -16,7 +16,6 @@
    stream fields here.  Molar rows are dense vectors (stored keys = non-zero entries is C09's).
    No proofs in this file. *)
 From V Require Export Common.Num.
-From Coq Require Export Qround.
 
 Inductive phase := Pg | Pl | Ps | PL | PS.
 Definition pcode (p : phase) : nat :=     (* ASCII order used by phase_tuple: 'L' < 'S' < 'g' < 'l' < 's' *)
@@ -209,6 +208,10 @@ Fixpoint memo_get (k : nat) (m : list (nat * mentry)) : option mentry :=
   | [] => None
   | (j, e) :: t => if Nat.eqb j k then Some e else memo_get k t
   end.
+(* ThermalCondition.in_equilibrium: abs(T' - T) < 1e-12 and abs(P' - P) < 1e-12; [tp_tol] is the double 1e-12 *)
+Definition tp_tol : Q := 4951760157141521 # 4951760157141521099596496896.
+Definition in_equilibrium (T' P' T P : Q) : bool :=
+  qltb (Qabs (T' - T)) tp_tol && qltb (Qabs (P' - P)) tp_tol.
 Definition vfactor h (vv : volview) (r : vrow) (k : nat) : Q * vrow :=
   let T := fst (gettp h (vv_tp vv)) in
   let P := snd (gettp h (vv_tp vv)) in
@@ -216,7 +219,7 @@ Definition vfactor h (vv : volview) (r : vrow) (k : nat) : Q * vrow :=
   let V := Qred (1000 * Vf (gid (vv_pkg vv) k) (base ph) T P) in
   let fresh := (V, mkvrow (vr_dct r) (vr_src r) ((k, mkme T P ph V) :: vr_memo r)) in
   match memo_get k (vr_memo r) with
-  | Some e => if phase_eqb (me_ph e) ph && qeqb (me_T e) T && qeqb (me_P e) P then (me_V e, r) else fresh
+  | Some e => if phase_eqb (me_ph e) ph && in_equilibrium (me_T e) (me_P e) T P then (me_V e, r) else fresh
   | None => fresh
   end.
 
@@ -672,10 +675,8 @@ Definition fin_eqb (a b : fin) : bool :=
   && res_eqb qapproxb (f_Fvol a) (f_Fvol b) && res_eqb (list_eqb Bool.eqb) (f_alias a) (f_alias b).
 
 (* ---------- the stand-ins used by the correspondence harness (props/C11.py) ---------- *)
-Definition jitter (x : Q) : Z := Z.modulo (Qfloor (x * 2199023255552)) 8.     (* bits of x around 2^-41 *)
 Definition vstub (g : nat) (p : phase) (T P : Q) : Q :=
-  (Z.of_nat (1 + g) # 64) + (match p with Ps | PS => 1 | Pl | PL => 2 | Pg => 5 end # 8) + T / 4096 + P / 67108864
-  + ((jitter T + jitter P) # 16).
+  (Z.of_nat (1 + g) # 64) + (match p with Ps | PS => 1 | Pl | PL => 2 | Pg => 5 end # 8) + T / 4096 + P / 67108864.
 Definition mwstub (g : nat) : Q := nth g [16; 32; 8; 4] 1.
 Definition pkgstub : list (list nat) := [[0; 1; 2]; [2; 0; 3; 1]]%nat.
 
